@@ -399,12 +399,14 @@ impl BusListener {
             match Pin::new(&mut self.events).poll_next(cx) {
                 Poll::Ready(Some(BusListenerEvent::Started(scope))) => {
                     self.scope = Some(scope);
-                    self.pending_started -= 1;
+                    // Events queued before `destroy` reset the counters may still arrive.
+                    self.pending_started = self.pending_started.saturating_sub(1);
                 }
 
                 Poll::Ready(Some(BusListenerEvent::Stopped)) => {
                     self.scope = None;
-                    self.pending_stopped -= 1;
+                    // Events queued before `destroy` reset the counters may still arrive.
+                    self.pending_stopped = self.pending_stopped.saturating_sub(1);
                 }
 
                 Poll::Ready(Some(BusListenerEvent::Event(event))) => {
@@ -412,7 +414,8 @@ impl BusListener {
                 }
 
                 Poll::Ready(Some(BusListenerEvent::CurrentFinished)) => {
-                    self.pending_current_finished -= 1;
+                    // Events queued before `destroy` reset the counters may still arrive.
+                    self.pending_current_finished = self.pending_current_finished.saturating_sub(1);
                 }
 
                 Poll::Ready(None) => break Poll::Ready(None),
